@@ -23,9 +23,17 @@ Open(a, mode, timed) ==
    /\ last' = OpenResult(held, a, mode)
    /\ held' = IF last' = "ok" THEN [held EXCEPT ![a] = mode] ELSE held
    /\ hist' = Append(hist, [op |-> "open", a |-> a, mode |-> mode, timed |-> timed, res |-> last'])
+\* An open that takes the lock and then fails half-way (db.go:260-330: stat / init / page-size detection / mmap
+\* error -> db.close()) must leave nothing behind: no holder, so later opens behave as if it never happened.
+\* If the lock is not available it times out like any other open.
+OpenFail(a, mode) ==
+   /\ held[a] = "none" /\ Len(hist) < MaxSteps
+   /\ last' = (IF Compatible(held, a, mode) THEN "fail" ELSE "ErrTimeout")
+   /\ held' = held
+   /\ hist' = Append(hist, [op |-> "openfail", a |-> a, mode |-> mode, timed |-> TRUE, res |-> last'])
 Close(a) == /\ held[a] # "none" /\ Len(hist) < MaxSteps /\ held' = [held EXCEPT ![a] = "none"] /\ last' = "ok"
             /\ hist' = Append(hist, [op |-> "close", a |-> a, mode |-> held[a], timed |-> FALSE, res |-> "ok"])
-Next == \E a \in A : Close(a) \/ \E mode \in {"rw", "ro"}, timed \in BOOLEAN : Open(a, mode, timed)
+Next == \E a \in A : Close(a) \/ (\E mode \in {"rw", "ro"}, timed \in BOOLEAN : Open(a, mode, timed)) \/ (\E mode \in {"rw", "ro"} : OpenFail(a, mode))
 Spec == Init /\ [][Next]_vars
 \* a read-write holder excludes everyone else; read-only holders coexist
 Exclusion == \A a, b \in A : (a # b /\ held[a] = "rw") => held[b] = "none"
